@@ -7,8 +7,8 @@ Lemma getitem_lookup a s t : getitem a s t = lookup (a_tracks a) s t.
 Proof. unfold getitem, lookup. destruct (sd_get s (a_tracks a)); [apply d_get_nm | reflexivity]. Qed.
 
 (* the option-threading fold of the model, when the generator never runs dry *)
-Lemma opt_fold_some {X} (g : gen) (f : nat -> name) (ins : ann -> X -> name -> ann) (l : list X) :
-  (forall i, gen_nth g i = Some (f i)) -> forall c i,
+Lemma opt_fold_some {X} (g : gen) (f : nat -> name) (ins : ann -> X -> name -> ann) (bound : nat) (l : list X) :
+  (forall i, (i < bound)%nat -> gen_nth g i = Some (f i)) -> forall c i, (i + List.length l <= bound)%nat ->
   fold_left (fun st x => let '(acc, i) := st in
                          match acc, gen_nth g i with
                          | Some acc', Some n => (Some (ins acc' x n), S i)
@@ -17,8 +17,8 @@ Lemma opt_fold_some {X} (g : gen) (f : nat -> name) (ins : ann -> X -> name -> a
   = (Some (fst (fold_left (fun st x => (ins (fst st) x (f (snd st)), S (snd st))) l (c, i))),
      snd (fold_left (fun st x => (ins (fst st) x (f (snd st)), S (snd st))) l (c, i))).
 Proof.
-  intro Hg. induction l as [|x l IH]; intros c i; cbn [fold_left fst snd]; [reflexivity|].
-  rewrite Hg. apply IH.
+  intro Hg. induction l as [|x l IH]; intros c i Hb; cbn [fold_left fst snd]; [reflexivity|].
+  cbn [List.length] in Hb. rewrite Hg by lia. apply IH. lia.
 Qed.
 
 Lemma flat_map_perm {A B} (f g : A -> list B) l : (forall x, In x l -> Permutation (f x) (g x)) ->
@@ -152,13 +152,25 @@ Proof. intros _ _ E. inversion E. lia. Qed.
 Lemma f_str_inj n i j : Z.of_nat n <= word_bound -> (i < n)%nat -> (j < n)%nat -> f_str i = f_str j -> i = j.
 Proof. intros Hn Hi Hj E. inversion E as [E']. apply word_inj in E'; lia. Qed.
 
-Definition gen_fun (g : gen) : nat -> name := match g with GString => f_str | GInt => f_int | GList _ => f_int end.
+Definition gen_fun (g : gen) : nat -> name :=
+  match g with GString => f_str | GInt => f_int | GList l => fun i => nth i l (NInt 0) end.
+(* the generator can supply n pairwise distinct values: always for 'int', up to the fuel of [word] for
+   'string', and for a user-supplied iterable when it holds at least n values without repetition *)
 Definition gen_ok (g : gen) (n : nat) : Prop :=
-  match g with GString => Z.of_nat n <= word_bound | GInt => True | GList _ => False end.
-Lemma gen_fun_nth g n i : gen_ok g n -> gen_nth g i = Some (gen_fun g i).
-Proof. destruct g; cbn [gen_ok gen_fun gen_nth]; try reflexivity. intros []. Qed.
+  match g with GString => Z.of_nat n <= word_bound | GInt => True | GList l => NoDup l /\ (n <= List.length l)%nat end.
+Lemma gen_fun_nth g n i : gen_ok g n -> (i < n)%nat -> gen_nth g i = Some (gen_fun g i).
+Proof.
+  destruct g as [| |l]; cbn [gen_ok gen_fun gen_nth]; try reflexivity.
+  intros [_ Hl] Hi. apply nth_error_nth'. lia.
+Qed.
 Lemma gen_fun_inj g n i j : gen_ok g n -> (i < n)%nat -> (j < n)%nat -> gen_fun g i = gen_fun g j -> i = j.
-Proof. destruct g; cbn [gen_ok gen_fun]; [apply f_str_inj | intros _; apply f_int_inj | intros []]. Qed.
+Proof.
+  destruct g as [| |l]; cbn [gen_ok gen_fun]; [apply f_str_inj | intros _; apply f_int_inj|].
+  intros [Nd Hl] Hi Hj E. apply (proj1 (NoDup_nth l (NInt 0)) Nd i j); lia || exact E.
+Qed.
+(* a user-supplied iterable that runs dry makes the call fail *)
+Lemma gen_exhausted l i : (List.length l <= i)%nat -> gen_nth (GList l) i = None.
+Proof. intro H. cbn [gen_nth]. now apply nth_error_None. Qed.
 
 Section Specs.
 Variable eps : Z.
@@ -200,8 +212,8 @@ Theorem rename_tracks_spec a g : AInv eps a -> gen_ok g (List.length (itertracks
     a_uri r = a_uri a /\ a_modality r = a_modality a.
 Proof.
   intros I Hg. unfold rename_tracks_ann.
-  rewrite (opt_fold_some g (gen_fun g) (fun acc (x : triple) n => setitem eps acc (fst (fst x)) n (snd x)) (itertracks a)
-             (fun i => gen_fun_nth g _ i Hg)).
+  rewrite (opt_fold_some g (gen_fun g) (fun acc (x : triple) n => setitem eps acc (fst (fst x)) n (snd x))
+             (List.length (itertracks a)) (itertracks a) (fun i => gen_fun_nth g _ i Hg)) by lia.
   cbn [fst]. eexists. split; [reflexivity|].
   destruct (rt_fold eps (gen_fun g) (List.length (itertracks a)) (fun i j => gen_fun_inj g _ i j Hg)
               (itertracks a) (Annotation.a_empty (a_uri a) (a_modality a)) O) as [J [P [G [_ [U M]]]]].
@@ -222,8 +234,8 @@ Theorem relabel_tracks_spec a g : AInv eps a -> gen_ok g (List.length (itertrack
     a_uri r = a_uri a /\ a_modality r = a_modality a.
 Proof.
   intros I Hg. unfold relabel_tracks_ann.
-  rewrite (opt_fold_some g (gen_fun g) (fun acc (x : triple) n => setitem eps acc (fst (fst x)) (snd (fst x)) n) (itertracks a)
-             (fun i => gen_fun_nth g _ i Hg)).
+  rewrite (opt_fold_some g (gen_fun g) (fun acc (x : triple) n => setitem eps acc (fst (fst x)) (snd (fst x)) n)
+             (List.length (itertracks a)) (itertracks a) (fun i => gen_fun_nth g _ i Hg)) by lia.
   cbn [fst]. eexists. split; [reflexivity|].
   destruct (rl_fold eps (gen_fun g) (itertracks a) (Annotation.a_empty (a_uri a) (a_modality a)) O) as [J [G [K [U M]]]].
   - apply AInv_empty.
@@ -247,16 +259,16 @@ Proof.
   { pose proof (labels_spec eps a I) as HL. destruct (labels eps a) as [a1 L]. cbn [snd]. tauto. }
   pose proof (fun (ins : list (name * name) -> name -> name -> list (name * name)) => True) as _.
   (* same option-threading shape, on mappings instead of annotations *)
-  assert (E : forall labs m i,
+  assert (E : forall labs m i, (i + List.length labs <= List.length (snd (labels eps a)))%nat ->
     fold_left (fun st l => let '(acc, i) := st in
                  match acc, gen_nth g i with
                  | Some m, Some n => (Some (d_set l n m), S i)
                  | _, _ => (None, S i)
                  end) labs (Some m, i)
     = (Some (fst (fold_left (gm_step (gen_fun g)) labs (m, i))), snd (fold_left (gm_step (gen_fun g)) labs (m, i)))).
-  { induction labs as [|x labs IH]; intros m i; cbn [fold_left fst snd]; [reflexivity|].
-    rewrite (gen_fun_nth g _ i Hg). apply IH. }
-  rewrite E. cbn [fst]. eexists. split; [reflexivity|].
+  { induction labs as [|x labs IH]; intros m i Hb; cbn [fold_left fst snd]; [reflexivity|].
+    cbn [List.length] in Hb. rewrite (gen_fun_nth g _ i Hg) by lia. apply IH. lia. }
+  rewrite E by lia. cbn [fst]. eexists. split; [reflexivity|].
   destruct (gm_fold (gen_fun g) (snd (labels eps a)) [] O Nd (fun _ _ => eq_refl)) as [G K].
   cbv zeta in *. split; [exact G | intros l Hn; now rewrite K].
 Qed.
@@ -279,8 +291,8 @@ Theorem to_annotation_spec t u m g : wf eps t -> gen_ok g (List.length t) ->
     a_uri r = u /\ a_modality r = m.
 Proof.
   intros [Hsort Hne] Hg. unfold to_annotation.
-  rewrite (opt_fold_some g (gen_fun g) (fun acc (s : seg) n => setitem eps acc s default_track n) t
-             (fun i => gen_fun_nth g _ i Hg)).
+  rewrite (opt_fold_some g (gen_fun g) (fun acc (s : seg) n => setitem eps acc s default_track n)
+             (List.length t) t (fun i => gen_fun_nth g _ i Hg)) by lia.
   cbn [fst]. eexists. split; [reflexivity|].
   set (recs := map (fun s : seg => (s, default_track, default_track)) t).
   assert (Efold : forall c i, fold_left (fun st (s : seg) => (setitem eps (fst st) s default_track (gen_fun g (snd st)), S (snd st))) t (c, i)
@@ -309,3 +321,40 @@ Proof.
       apply (keys_from_lookup eps _ s (i_wf _ _ J)). eauto.
 Qed.
 End ToAnnotation.
+
+(* ---- a generator that runs dry: the call fails (StopIteration in the implementation) ---- *)
+Section Exhausted.
+Context {X : Type} (g : gen) (ins : ann -> X -> name -> ann).
+Let step := fun (st : option ann * nat) (x : X) =>
+  let '(acc, i) := st in
+  match acc, gen_nth g i with
+  | Some acc', Some n => (Some (ins acc' x n), S i)
+  | _, _ => (None, S i)
+  end.
+Lemma opt_fold_none l : forall i, fst (fold_left step l (None, i)) = None.
+Proof. induction l as [|x l IH]; intro i; cbn [fold_left]; [reflexivity|]. unfold step at 2. apply IH. Qed.
+Lemma opt_fold_exhaust l : forall c i k, (k < List.length l)%nat -> gen_nth g (i + k) = None ->
+  fst (fold_left step l (Some c, i)) = None.
+Proof.
+  induction l as [|x l IH]; intros c i k Hk Hn; cbn [List.length] in Hk; [lia|]. cbn [fold_left]. unfold step at 2.
+  destruct (gen_nth g i) as [n|] eqn:E.
+  - destruct k as [|k]; [rewrite Nat.add_0_r in Hn; congruence|].
+    apply (IH _ (S i) k); [lia|]. now replace (S i + k)%nat with (i + S k)%nat by lia.
+  - apply opt_fold_none.
+Qed.
+End Exhausted.
+
+Theorem rename_tracks_exhausted eps a l : (List.length l < List.length (itertracks a))%nat ->
+  rename_tracks_ann eps a (GList l) = None.
+Proof.
+  intro H. unfold rename_tracks_ann.
+  apply (opt_fold_exhaust (GList l) (fun acc (x : triple) n => setitem eps acc (fst (fst x)) n (snd x)) (itertracks a) _ O (List.length l) H).
+  apply gen_exhausted. lia.
+Qed.
+Theorem relabel_tracks_exhausted eps a l : (List.length l < List.length (itertracks a))%nat ->
+  relabel_tracks_ann eps a (GList l) = None.
+Proof.
+  intro H. unfold relabel_tracks_ann.
+  apply (opt_fold_exhaust (GList l) (fun acc (x : triple) n => setitem eps acc (fst (fst x)) (snd (fst x)) n) (itertracks a) _ O (List.length l) H).
+  apply gen_exhausted. lia.
+Qed.
